@@ -40,7 +40,7 @@ def _alarm(*_):
 def dom_line(d):
     k = d["k"]
     if k in ("I", "C"):
-        return f"P {d['v']} {d['id']} {common.lst(d['deps'])}"
+        return f"{'P' if k == 'I' else 'Q'} {d['v']} {d['id']} {common.lst(d['deps'])}"
     if k in ("U", "-", "&"):
         return f"B {dom_line(d['a'])} {dom_line(d['b'])}"
     if k == "X":
@@ -53,7 +53,7 @@ def dom_line(d):
 def smp_line(s):
     k = s["k"]
     if k == "leaf":
-        return f"L {s['kind']} {dom_line(s['d'])} {s['n']} {1 if s['filt'] else 0}"
+        return f"L {s['kind']} {dom_line(s['d'])} {'none' if s['n'] is None else s['n']} {1 if s['filt'] else 0}"
     if k == "data":
         return f"D {s['v']} {s['id']} {s['m']}"
     if k in ("*", "+", "&"):
@@ -145,7 +145,7 @@ def build_smp(tp, torch, s):
         if s["filt"]:
             v = first_prim(s["d"])["v"]
             filt = eval(f"lambda {v}: ({v}[:, :1]*4 - torch.floor({v}[:, :1]*4)) < 0.75", {"torch": torch})
-        kind, n = s["kind"], s["n"]
+        kind, n = s["kind"], s["n"]      # n = None: neither n_points nor a density (malformed stream)
         if kind == "u":
             return tp.samplers.RandomUniformSampler(dom, n_points=n, filter_fn=filt)
         if kind == "g":
@@ -778,6 +778,78 @@ def gen_cases(ctx):
 
 
 # ------------------------------------------------------------------------------------------
+# malformed stream: inputs the code rejects (or treats specially); only accept/reject and the row count are
+# compared with the model, the property oracles are never applied to them
+
+def simple_leaf(g, v, kind="u", deps=(), n=2, filt=False):
+    d = dict(k="I", v=v, id=g.new_id(), deps=list(deps), coef={w: COEF[w] for w in deps}, base=0.0, off=0.0, len=1.0)
+    return dict(k="leaf", kind=kind, d=d, n=n, filt=filt)
+
+
+def gen_malformed(rng):
+    g = Gen(rng)
+    what = rng.choice(["n0", "n0-gauss", "no-count", "missing-param", "overlap", "sum-spaces", "grid-on-product",
+                       "exp-on-circle", "append-unequal", "append-overlap", "product-overlap", "empty-data"])
+    k = rng.choice([0, 1, 2, 3])
+    pvars = [] if k == 0 else rng.choice([["t"], ["t", "D"], ["D"]])
+    kind = rng.choice(["u", "g", "l", "e"])
+    filt = kind in ("u", "g") and rng.random() < 0.3
+    deps = [w for w in pvars if rng.random() < 0.5]
+    if what == "n0":
+        s = simple_leaf(g, "x", kind, deps, 0, filt)
+    elif what == "n0-gauss":
+        s = simple_leaf(g, "x", "n", (), 0)
+    elif what == "no-count":
+        s = simple_leaf(g, "x", rng.choice(["u", "g"]), deps, None)
+    elif what == "missing-param":
+        need = rng.choice(["t", "D"])
+        pvars = [w for w in pvars if w != need]
+        k = k if pvars else 0
+        s = simple_leaf(g, "x", kind, [need] + [w for w in deps if w != need], rng.choice([1, 3]), filt)
+        s["d"]["coef"] = {w: COEF[w] for w in s["d"]["deps"]}
+        if rng.random() < 0.5:
+            s = dict(k="*", a=s, b=simple_leaf(g, "u", "g", (), 2))
+    elif what == "overlap":
+        k, pvars = max(k, 1), ["t"]
+        s = simple_leaf(g, "t", kind, (), 2, filt)
+    elif what == "sum-spaces":
+        s = dict(k="+", a=simple_leaf(g, "x", "u", deps, 2), b=simple_leaf(g, "u", "g", deps, 3))
+    elif what == "grid-on-product":
+        a, b = simple_leaf(g, "x", "u", deps, 2), simple_leaf(g, "u", "u", (), 2)
+        s = dict(k="leaf", kind="g", d=dict(k="X", a=a["d"], b=b["d"]), n=3, filt=False)
+    elif what == "exp-on-circle":
+        s = simple_leaf(g, "x", "e", deps, 3)
+        s["d"]["k"] = "C"
+    elif what == "append-unequal":
+        s = dict(k="&", a=simple_leaf(g, "x", "u", deps, 2), b=simple_leaf(g, "u", "g", deps, 3))
+    elif what == "append-overlap":
+        s = dict(k="&", a=simple_leaf(g, "x", "u", deps, 2), b=simple_leaf(g, "x", "g", deps, 2))
+    elif what == "product-overlap":
+        s = dict(k="*", a=simple_leaf(g, "x", "u", deps, 2), b=simple_leaf(g, "x", "g", (), 2))
+    else:
+        s = dict(k="data", v="u", id=g.new_id(), m=0)
+    pvals = []
+    if k:
+        cols = [rng.sample(range(1, 9), k) for _ in pvars]
+        pvals = [[float(c[i]) for c in cols] for i in range(k)]
+    return dict(kind="malformed", what=what, k=k, pvars=pvars, pvals=pvals, s=s, tseed=rng.randint(0, 10 ** 6))
+
+
+def judge_malformed(rep, case, res, reply):
+    rep.count("malformed:" + case["what"])
+    impl = "reject" if "error" in res else f"accept rows={[len(c[2]) for c in res['calls']]}"
+    if reply.startswith("ok "):
+        n = int(reply.split("rows=")[1].split(" ")[0])
+        model = f"accept rows={[n] * len(res.get('calls', [0, 0]))}"
+    elif reply.startswith("err:"):
+        model = "reject"
+    else:
+        model = reply
+    rep.count("malformed-outcome:" + impl.split(" ")[0])
+    if impl != model:
+        rep.disagree("malformed stream: drivers/C02.lean accept/reject vs the real sampler expression",
+                     dict(case=case, text=case["what"] + ": " + describe(case)), impl + " " + res.get("error", ""), reply[:300])
+
 
 def describe(case):
     def ds(d):
@@ -940,12 +1012,13 @@ def judge(rep, case, res, reply):
 def run(ctx, rep, cases=None):
     rep.rule = ("seeded sampler expressions (depth <= 3) over tagging domains; a case is non-trivial if it has >= 1 parameter "
                 "row or is a composition, and asks for >= 2 points somewhere; distinct = distinct (expression, n, k) texts")
-    cases = cases if cases is not None else gen_cases(ctx)
+    if cases is None:
+        cases = gen_cases(ctx) + [gen_malformed(ctx.rng) for _ in range(ctx.scale(150, 1500))]
     results, failing = [], 0
     for c in cases:
         r = run_impl(c)
         results.append(r)
-        if oracles(c, r):
+        if c.get("kind") != "malformed" and oracles(c, r):
             failing += 1
             if failing >= MAX_FAILING_CASES:
                 rep.notes.append(f"stopped after {len(results)} of {len(cases)} cases: {failing} cases violate the property")
@@ -956,10 +1029,16 @@ def run(ctx, rep, cases=None):
         replies = common.run_driver("C02", lines)
     except common.DriverFailure:
         for c, r in zip(cases, results):
+            if c.get("kind") == "malformed":
+                continue
             for f in oracles(c, r):
                 rep.fail(f, dict(case=c, text=describe(c)))
         raise
     for c, r, m in zip(cases, results, replies):
+        if c.get("kind") == "malformed":
+            rep.case("malformed " + c["what"] + " " + describe(c), False)
+            judge_malformed(rep, c, r, m)
+            continue
         nontrivial = (c["k"] >= 1 or c["s"]["k"] not in ("leaf", "data")) and any(slen(l) >= 2 for l in leaves_of(c["s"]))
         rep.case(describe(c), nontrivial, sample=dict(case=describe(c), model=m[:300],
                                                       implementation_rows=len(r.get("rows_raw", []))), kind=c["s"]["k"])
